@@ -8,6 +8,7 @@ import (
 	"strings"
 	"sync"
 	"sync/atomic"
+	"time"
 
 	ledger "github.com/formancehq/ledger/internal"
 	storagecommon "github.com/formancehq/ledger/internal/storage/common"
@@ -354,6 +355,28 @@ func ReplayRenumbered(want string, c RenumberedCase, n int) ([][2]string, error)
 // is a reference conflict (errors.Is ErrTransactionReferenceConflict), the logs before k stay,
 // nothing of log k or after is stored, and no reference is carried by two transactions.
 func ReusedReferenceImports() func(r *ev.Run) (map[string]any, bool) {
+	return reusedReferenceImports(nil)
+}
+
+// ReusedRefCase is one stream of the family (what a replay file records).
+type ReusedRefCase struct {
+	Hashing string `json:"hashing"`
+	K       int    `json:"k"` // 0-based index of the log whose reference is replaced
+	J       int    `json:"j"` // index of the log whose reference it takes (J==K: control)
+}
+
+// ReplayReusedReference re-executes one recorded case; the oracle's findings are printed as
+// VIOLATION lines by the run. Returns their number.
+func ReplayReusedReference(c ReusedRefCase) (int, error) {
+	r := ev.Start("C14", ev.LevelMC, 5*time.Minute, 5*time.Minute)
+	reusedReferenceImports(&c)(r)
+	if r.HasEngineError() {
+		return 0, fmt.Errorf("engine error during the replay (printed above)")
+	}
+	return r.ViolationCount(), nil
+}
+
+func reusedReferenceImports(only *ReusedRefCase) func(r *ev.Run) (map[string]any, bool) {
 	return func(r *ev.Run) (map[string]any, bool) {
 		ctx := context.Background()
 		restore := quietStdout()
@@ -384,11 +407,7 @@ func ReusedReferenceImports() func(r *ev.Run) (map[string]any, bool) {
 			r.EngineError(fmt.Sprintf("C14 reused-reference imports: export: %d logs, %v", len(src), err))
 			return nil, false
 		}
-		type rcase struct {
-			Hashing string `json:"hashing"`
-			K       int    `json:"k"` // 0-based index of the log whose reference is replaced
-			J       int    `json:"j"` // index of the log whose reference it takes (J==K: control)
-		}
+		type rcase = ReusedRefCase
 		var cases []rcase
 		for _, h := range []string{"SYNC", "DISABLED"} {
 			for k := 0; k < len(refs); k++ {
@@ -399,6 +418,9 @@ func ReusedReferenceImports() func(r *ev.Run) (map[string]any, bool) {
 					cases = append(cases, rcase{h, k, j})
 				}
 			}
+		}
+		if only != nil {
+			cases = []rcase{*only}
 		}
 		var conflicts, controls atomic.Int64
 		complete := parallel(r, len(cases), func(i int) {
@@ -483,7 +505,7 @@ func ReusedReferenceImports() func(r *ev.Run) (map[string]any, bool) {
 				viol("C14:import:reused-reference:effect", "%d logs and %d transactions stored, expected the %d before the conflicting one", len(logs), len(txs), cs.K)
 			}
 		})
-		if complete && r.ViolationCount() == 0 && (conflicts.Load() == 0 || controls.Load() == 0) {
+		if only == nil && complete && r.ViolationCount() == 0 && (conflicts.Load() == 0 || controls.Load() == 0) {
 			r.EngineError("C14 reused-reference imports: vacuous")
 		}
 		return map[string]any{
